@@ -115,6 +115,26 @@ def check(run):
     rng = run.rng
     quick = run.tier == "quick"
     many_charges_case(run)
+    # positive charges given as arrays of other integer types (atomic numbers as uint8 / uint64 / int64): refused or negative semi-definite
+    from gbasis.integrals.point_charge import point_charge_integral
+    from checks.common import repr_variants
+    sp_ = random_basis(rng, 2, 2, lmax=2, exp_hi=10.0)
+    b_ = make_basis(sp_)
+    pos_ = np.array([[0.3, 0.1, -0.2], [1.5, -1.0, 0.5]])
+    for lab, z in repr_variants(np.array([1.0, 8.0])):
+        run.case(("charges-repr", lab))
+        run.count("positive charges as a %s array" % lab)
+        try:
+            V = point_charge_integral(b_, pos_, z)
+        except TypeError:
+            continue
+        for k in range(2):
+            ev = np.linalg.eigvalsh(-(V[:, :, k] + V[:, :, k].T) / 2)
+            if not np.all(np.isfinite(V)) or ev.min() < -1e-9 * max(abs(ev.max()), 1e-300):
+                run.violation(f"point-charge matrix of the positive charge {int(z[k])} given in a {lab} array is not negative semi-definite "
+                              f"(eigenvalues of -V from {ev.min():.4g} to {ev.max():.4g})",
+                              {"case": "gram", "basis": core.describe_basis(sp_), "eri": False, "signature": {"kind": "gram-charges-representation"}})
+                break
     for k in range(8 if quick else 60):
         n = 1 + k % 5
         one_case(run, gen(rng, n, 3, 0.05, 50.0, dependent=(k % 3 == 0), spread=[0.0, 0.5, 3.0, 6.0][k % 4]))
